@@ -92,6 +92,13 @@ def generic_rules(ctx) -> None:
         ctx.chk.extra["overridden_class_constants"] = lb
         if lb:
             ctx.chk.ok(f"{ctx.chk.prop}.late-binding", "anchor modules", f"{lb} class constants overridden by subclasses; the base classes read none of them through a hard-coded class name")
+        from .engines import generic2
+        dp = generic2.dead_parameters(ctx, f"{ctx.chk.prop}.dead-parameter", files)
+        ma = generic2.manual_align(ctx, f"{ctx.chk.prop}.manual-align", files)
+        ctx.chk.extra["parameters_scanned"] = dp
+        ctx.chk.extra["manual_align_sites"] = ma
+        if dp:
+            ctx.chk.ok(f"{ctx.chk.prop}.dead-parameter", "anchor modules", f"{dp} parameters of non-interface functions scanned; every one is read by its body (3 frozen exceptions)")
         from .engines import guardconj
         g = guardconj.check(ctx, f"{ctx.chk.prop}.guard-conjunction", files)
         ctx.chk.extra["raising_guards_scanned"] = g
